@@ -39,8 +39,9 @@ ASSUMPTIONS = [
 # harness-owned edge flags (bits >= 32; 8 and 16 are TICK_A / TICK_B)
 OFFER, RDY, PENDING, INPROG = 32, 64, 128, 256
 STABLE, MISMATCH = 512, 1024
-TICKSETS = (("a",), ("b",), ("a", "b"))
-TICKFLAGS = (TICK_A, TICK_B, TICK_A | TICK_B)
+TICKSETS = (("a",), ("b",), ("a", "b"), ())         # index 3: no clock rises (an asynchronous environment event)
+TICKFLAGS = (TICK_A, TICK_B, TICK_A | TICK_B, 0)
+CLOCKED = ((0, ("a",)), (1, ("b",)), (2, ("a", "b")))
 
 
 def _tagger(store):
@@ -261,7 +262,7 @@ class CdcStreamHarness(CdcHarness):
     def choices(self, env):
         npds = self.idle_patterns + (2,)
         out = []
-        for t, ts in enumerate(TICKSETS):
+        for t, ts in CLOCKED:
             for npd in (npds if "a" in ts else (None,)):
                 for nrd in ((0, 1) if "b" in ts else (None,)):
                     out.append((t, npd, nrd))
@@ -340,7 +341,6 @@ class BusSyncHarness(CdcHarness):
     """env = (ci, drift, o_prev, hist): value the a-domain register driving `i` holds; edges of one clock since the other ticked
     (+: a, -: b); last value seen at `o`; bit set of the values `i` has held since `o` last changed.
     choice = (tick set, next value of i (taken at an a tick))."""
-    conf_every = 7
     live_queries = (
         ("live.bus_stuck", STABLE | MISMATCH, 0, (TICK_A, TICK_B),
          "input held constant, both clocks keep ticking (drift <= R), output never becomes equal to the input"),
@@ -357,6 +357,7 @@ class BusSyncHarness(CdcHarness):
                     assert x == y or bin(x ^ y).count("1") == 2
         if cap:
             self.cap = cap
+        self.conf_every = 7 if width <= 2 else 211
         self.o_changes = 0
         self.o_seen = set()
 
@@ -370,7 +371,7 @@ class BusSyncHarness(CdcHarness):
     def choices(self, env):
         ci, drift, op, hist = env
         out = []
-        for t, ts in enumerate(TICKSETS):
+        for t, ts in CLOCKED:
             nd = self.drift(drift, t)
             if abs(nd) > self.R:
                 continue
@@ -432,3 +433,96 @@ class BusSyncHarness(CdcHarness):
         if self.fault and not self.n_cross:
             return "no crossing signal ever changed in a sampling instant"
         return None
+
+
+# ---------------------------------------------------------------------------------------------------------------
+# ClockDomainCrossing(with_common_rst=True) with reset pulses of either domain
+# ---------------------------------------------------------------------------------------------------------------
+class CommonRstWrapper(Module):
+    """the two user domains with real reset inputs + the crossing"""
+    def __init__(self, layout, depth, buffered):
+        from litex.soc.interconnect import stream
+        self.clock_domains.cd_a = ClockDomain("a")
+        self.clock_domains.cd_b = ClockDomain("b")
+        self.submodules.cdc = cdc = stream.ClockDomainCrossing(layout, "a", "b", depth=depth, buffered=buffered, with_common_rst=True)
+        self.sink, self.source = cdc.sink, cdc.source
+
+
+class CdcStreamResetHarness(CdcStreamHarness):
+    """env = (nid, pd, rd, mon, rs); rs = 0 or (which, phase, ca, cb): a reset pulse on rst_a (which=0) / rst_b (which=1) is in
+    progress.  Phase 0 lasts until each clock has risen `hold[0]` times (both pointer sets cleared), phase 1 until each has risen
+    `hold[1]` more times (the reset-less synchroniser flops flushed); then the pulse ends.  The pulse starts asynchronously
+    (a step in which no clock rises); producer and consumer are reset with it (idle / not ready), the scoreboard is emptied."""
+
+    def __init__(self, name, factory, capacity, hold=(1, 2), **kw):
+        CdcStreamHarness.__init__(self, name, factory, capacity, **kw)
+        self.hold = hold
+        self.resets = self.resets_nonempty = self.resets_done = 0
+
+    def build(self):
+        frag = CdcStreamHarness.build(self)
+        names = [cd.name for cd in frag.clock_domains]
+        fr = [n for n in names if n.startswith("from")]
+        to = [n for n in names if n.startswith("to")]
+        if len(fr) != 1 or len(to) != 1:
+            raise MachineryError(f"{self.name}: expected one derived from*/to* domain pair, found {names}")
+        self.rise = {"a": ("a", fr[0]), "b": ("b", to[0])}
+        self.clocks = ("a", "b", fr[0], to[0])
+        return frag
+
+    def bind(self, D):
+        CdcStreamHarness.bind(self, D)
+        self.rst = (D.i(self.dut.cd_a.rst), D.i(self.dut.cd_b.rst))
+
+    def env_init(self):
+        return CdcStreamHarness.env_init(self) + (0,)
+
+    def choices(self, env):
+        rs = env[4]
+        if rs == 0:
+            return [c + (None,) for c in CdcStreamHarness.choices(self, env[:4])] + [(3, None, None, 0), (3, None, None, 1)]
+        return [(0, None, None, None), (1, None, None, None), (2, None, None, None)]
+
+    def drive(self, v, env, ch):
+        CdcStreamHarness.drive(self, v, env[:4], ch)
+        rs = env[4]
+        v[self.rst[0]] = 1 if rs != 0 and rs[0] == 0 else 0
+        v[self.rst[1]] = 1 if rs != 0 and rs[0] == 1 else 0
+
+    def observe(self, v, env, ch):
+        rs = env[4]
+        t = ch[0]
+        if rs == 0:
+            if t == 3:      # asynchronous start of a reset pulse
+                nid, pd, rd, mon = env[:4]
+                self.resets += 1
+                if mon[1]:
+                    self.resets_nonempty += 1
+                return (nid, self.idle_patterns[0], 0, self.model.init(), (ch[3], 0, 0, 0)), None, 0
+            e2, err, flags = CdcStreamHarness.observe(self, v, env[:4], ch[:3])
+            return (e2 + (0,) if err is None else env), err, flags
+        which, phase, ca, cb = rs
+        ts = TICKSETS[t]
+        need = self.hold[phase]
+        ca, cb = min(need, ca + ("a" in ts)), min(need, cb + ("b" in ts))
+        if ca >= need and cb >= need:
+            phase, ca, cb = phase + 1, 0, 0
+            while phase < 2 and self.hold[phase] == 0:
+                phase += 1
+        if phase >= 2:
+            self.resets_done += 1
+            rs2 = 0
+        else:
+            rs2 = (which, phase, ca, cb)
+        return env[:4] + (rs2,), None, TICKFLAGS[t]
+
+    def cover_report(self):
+        d = CdcStreamHarness.cover_report(self)
+        d.update(reset_pulses_started=self.resets, reset_pulses_started_with_elements_in_flight=self.resets_nonempty,
+                 reset_pulse_hold=list(self.hold))
+        return d
+
+    def vacuity(self):
+        if not self.resets_nonempty:
+            return "no reset pulse started while elements were in flight"
+        return CdcStreamHarness.vacuity(self)
